@@ -3,6 +3,7 @@
 mod api_check;
 mod dump;
 mod hooks;
+mod seq;
 mod types;
 
 use serde_json::json;
@@ -65,6 +66,75 @@ fn cmd_api(args: &[String]) {
     );
 }
 
+fn cmd_seq(args: &[String]) {
+    // seq <seed> <n_cases> <long:0|1> <out.v> [only_case_id]
+    let seed: u64 = args[0].parse().unwrap();
+    let n: u64 = args[1].parse().unwrap();
+    let long = args[2] == "1";
+    let out = &args[3];
+    let only: Option<u64> = args.get(4).and_then(|s| s.parse().ok());
+    silence_panics();
+    hooks::install();
+    let mut rng = types::SplitMix64(seed);
+    let mut coq = String::from("From Flurry Require Import Model.Check.\nImport ListNotations.\n");
+    let mut ids = Vec::new();
+    let mut stats = seq::Stats::default();
+    let mut dist = std::collections::BTreeMap::<String, u64>::new();
+    let mut nontrivial = std::collections::HashSet::<String>::new();
+    let mut samples = Vec::new();
+    let mut failures = 0u64;
+    for i in 0..n {
+        let mut crng = rng.fork();
+        let case = seq::gen_case(&mut crng, seed.wrapping_mul(1_000_003).wrapping_add(i), long);
+        if let Some(o) = only {
+            if case.id != o {
+                continue;
+            }
+        }
+        let run = with_hasher!(case.hasher, S, { seq::run_case::<S>(&case) });
+        *dist.entry(format!("hasher={}", types::HASHER_NAMES[case.hasher as usize])).or_insert(0) += 1;
+        *dist.entry(format!("cap_bucket={}", if case.cap == 0 { "0" } else if case.cap <= 16 { "1-16" } else if case.cap <= 70 { "17-70" } else { ">70" })).or_insert(0) += 1;
+        for op in &case.ops {
+            let name = format!("{:?}", op);
+            let name = name.split('(').next().unwrap().to_string();
+            *dist.entry(format!("op={}", name)).or_insert(0) += 1;
+        }
+        stats.resizes += run.stats.resizes;
+        stats.treeified += run.stats.treeified;
+        stats.untreeified += run.stats.untreeified;
+        stats.tree_ops += run.stats.tree_ops;
+        stats.effective += run.stats.effective;
+        stats.ops += run.stats.ops;
+        stats.reclaimed += run.stats.reclaimed;
+        stats.max_len = stats.max_len.max(run.stats.max_len);
+        stats.max_cmp_ratio_milli = stats.max_cmp_ratio_milli.max(run.stats.max_cmp_ratio_milli);
+        if run.stats.resizes + run.stats.treeified + run.stats.untreeified > 0 {
+            nontrivial.insert(format!("{:?}", case.ops));
+        }
+        if samples.len() < 3 && run.stats.resizes > 0 {
+            samples.push(seq::case_text(&case));
+        }
+        for (step, f) in &run.failures {
+            failures += 1;
+            println!("FOUND SEQ step={} {} || {}", step, f.replace('\n', " "), seq::case_text(&case));
+            break;
+        }
+        coq.push_str(&seq::case_coq(&format!("c{}", i), &run));
+        ids.push(seq::case_text(&case));
+    }
+    std::fs::write(out, coq).expect("write cases");
+    std::fs::write(format!("{}.idx", out), ids.join("\n")).expect("write idx");
+    println!(
+        "JSON {}",
+        json!({"cases": ids.len(), "ops": stats.ops, "effective_ops": stats.effective, "resizes": stats.resizes,
+               "treeified": stats.treeified, "untreeified": stats.untreeified, "ops_on_tree_tables": stats.tree_ops,
+               "max_table_len": stats.max_len, "reclaimed_blocks": stats.reclaimed,
+               "max_lookup_cost_ratio_milli": stats.max_cmp_ratio_milli,
+               "distinct_nontrivial": nontrivial.len(), "failures": failures,
+               "distribution": dist, "samples": samples})
+    );
+}
+
 fn main() {
     let args: Vec<String> = std::env::args().collect();
     if args.len() < 2 {
@@ -73,6 +143,7 @@ fn main() {
     }
     match args[1].as_str() {
         "api" => cmd_api(&args[2..]),
+        "seq" => cmd_seq(&args[2..]),
         other => {
             eprintln!("unknown subcommand {}", other);
             std::process::exit(2);
